@@ -45,6 +45,8 @@ def run(ctx):
                  nontrivial=lambda t: not t["ev"][0]["tree"]["leaf"])
     # real-valued data: the relational clauses (refill reproduces the build counts, divergence 0) on decimal grids and continuous values
     t4 = [D.refill_trace(rng) for _ in range(150 if q else 1500)]
+    for n_ in ([70000, 140000] if q else [70000, 140000, 300000, 66000, 131073]):
+        t4.append(D.big_refill(rng.randrange(10 ** 6), n_, rng.choice([1, 2]), rng.choice([500, 2000])))
     ctx.validate("KdqTree", t4, "real-valued build data filed again under another id", replay=lambda i: {"mode": "refill", "cfg": t4[i]["cfg"], "data": t4[i]["data"]},
                  nontrivial=lambda t: len(t["ev"][0]["cb"]) > 1)
     ctx.assumptions += ["data are integer-valued (all quantities of the construction are then exact in the specification)",
@@ -54,6 +56,9 @@ def run(ctx):
 
 def replay(ctx, bundle):
     r = bundle["replay"]
+    if r.get("mode") == "refill" and isinstance(r["data"], dict):
+        ctx.validate("KdqTree", [D.big_refill(r["data"]["seed"], r["data"]["n"], r["data"]["d"], r["cfg"]["ub"])], "replay", replay=lambda i: r)
+        return ctx.finish()
     if r.get("mode") == "refill":
         ctx.validate("KdqTree", [D.refill_from(r["cfg"], r["data"])], "replay", replay=lambda i: r)
         return ctx.finish()
